@@ -63,8 +63,8 @@ def audit_log(ctx, st, pre_bytes, results, agents, epic, trace):
     return False
 
 
-def parked_schedules(ctx, r):
-    base, v, trace = crash.build_state(ctx, r, 6 + r.n(8), weights={"new_task": 50, "new_epic": 8, "set": 14, "sequence": 14, "plan": 6})
+def parked_schedules(ctx, r, big=0):
+    base, v, trace = crash.build_state(ctx, r, 6 + r.n(8), weights={"new_task": 50, "new_epic": 8, "set": 14, "sequence": 14, "plan": 6}, big=big)
     try:
         pre = base.graph()
         if "err" in pre:
@@ -120,6 +120,8 @@ def free_running(ctx, r):
 
 
 def run(ctx):
+    import os
+    os.environ["GOGC"] = "1"      # stress the Go runtime: collections (and finalizers) inside every lock section
     framework.check_facts(ctx, ctx.facts, ["with_lock", "lock_sites", "writer_calls"])
     res = fndiff.run_stream(ctx.ev, ["fn-replay", str(ctx.seed + 100), "1200" if ctx.quick else "20000"])
     ctx.tie("T2-fn readyTasks (what claim selects)", cases=res["cases"], disagreements=len(res["diffs"]))
@@ -128,7 +130,7 @@ def run(ctx):
         ctx.tie_broken("T2-fn readyTasks", {"first_difference": fndiff.first_difference(d["go"], d["model"])})
     r = gen.Rng(ctx.seed * 1000003 + 1)
     for i in range(4 if ctx.quick else 60):
-        parked_schedules(ctx, r.fork())
+        parked_schedules(ctx, r.fork(), big=(250 if i % 2 == 0 else 0))      # large logs make the Go runtime collect inside the lock section
     for i in range(12 if ctx.quick else 300):
         free_running(ctx, r.fork())
     ctx.cov["rule"] = ("real `claim` processes: claimer A parked (strace SIGSTOP) after each of its system calls between lock and unlock, claimer B run meanwhile (must get `lock busy`, promptly), "
